@@ -1763,6 +1763,34 @@ class Interp:
         # `iter.collect::<Option<Vec<_>>>()` / `Result<Vec<_>, _>`: the first None/Err wins
         if name == "collect" and not args and isinstance(recv, ListV):
             ty = self.F.ty(n) or ""
+            t0_ = ty.replace("&", "").replace("mut ", "").strip()
+            if re.match(r"(indexmap::(map::)?IndexMap|std::collections::(hash_map::)?HashMap|std::collections::(btree_map::)?BTreeMap|IndexMap|HashMap|BTreeMap)<", t0_) and all(isinstance(x, tuple) and len(x) == 2 for x in recv.items):
+                # collecting pairs into a map: one entry per key, at the place of its first appearance, holding the last value
+                out_, pos_ = [], {}
+                for k_, v_ in recv.items:
+                    kk = _plain(k_)
+                    try:
+                        hash(kk)
+                    except TypeError:
+                        return Unknown("collect into a map with an unhashable key %r" % (k_,))
+                    if kk in pos_:
+                        out_[pos_[kk]] = (out_[pos_[kk]][0], v_)
+                    else:
+                        pos_[kk] = len(out_)
+                        out_.append((k_, v_))
+                return ListV(out_)
+            if re.match(r"(indexmap::(set::)?IndexSet|std::collections::(hash_set::)?HashSet|IndexSet|HashSet)<", t0_):
+                out_, seen_ = [], set()
+                for x_ in recv.items:
+                    kk = _plain(x_)
+                    try:
+                        if kk in seen_:
+                            continue
+                        seen_.add(kk)
+                    except TypeError:
+                        return Unknown("collect into a set with an unhashable element %r" % (x_,))
+                    out_.append(x_)
+                return ListV(out_)
             if ty.startswith(("std::option::Option<", "core::option::Option<", "Option<", "std::result::Result<", "core::result::Result<", "Result<")):
                 is_opt = "Option<" in ty.split("<", 1)[0] + "<"
                 out = []
@@ -2413,6 +2441,10 @@ class Interp:
             import math as _m
             neg = _m.copysign(1.0, recv) < 0
             return neg if name == "is_sign_negative" else not neg
+        if name in ("is_normal", "is_subnormal") and not args and isinstance(recv, float):
+            fin = recv == recv and abs(recv) != float("inf")
+            sub = fin and recv != 0.0 and abs(recv) < 2.2250738585072014e-308
+            return (fin and recv != 0.0 and not sub) if name == "is_normal" else sub
         if name in ("is_finite",) and isinstance(recv, (int, float)):
             return recv == recv and abs(recv) != float("inf")
         if name == "unwrap_or" and isinstance(recv, Var) and len(args) == 1:
